@@ -245,6 +245,7 @@ func run(sc *scenario, scratch string, seed int64) ([]map[string]any, error) {
 		mu.Unlock()
 
 		code, slow := 0, false
+		trunc := false
 		switch class {
 		case "ok":
 			code = successCodes[int(atomic.AddInt64(codeCursor["ok"], 1))%len(successCodes)]
@@ -260,6 +261,9 @@ func run(sc *scenario, scratch string, seed int64) ([]map[string]any, error) {
 		case "timeout":
 			code = -2
 			time.Sleep(1400 * time.Millisecond) // the pusher's client gives up after 1.5 s; the endpoint counts the request as over just before
+		case "failtrunc": // a failing status whose body is cut short (declared longer than what is sent)
+			code = 500
+			trunc = true
 		default:
 			cs := codesOf(class)
 			code = cs[int(atomic.AddInt64(codeCursor[class], 1))%len(cs)]
@@ -280,6 +284,12 @@ func run(sc *scenario, scratch string, seed int64) ([]map[string]any, error) {
 		if code == -2 {
 			time.Sleep(400 * time.Millisecond)
 			return
+		}
+		if trunc {
+			rw.Header().Set("Content-Length", "64")
+			rw.WriteHeader(code)
+			_, _ = rw.Write([]byte("oops"))
+			return // the server closes the connection: the client's body read fails
 		}
 		rw.WriteHeader(code)
 	}))
